@@ -1186,7 +1186,7 @@ func (w *world) execCore(r *hx.Run, op string) string {
 						}
 						if i == 2 {
 							// a foreign WRITER: other keys of the same view through the same handle, sibling views
-							w.foreign([]string{"own", "batch", "iter", "sib", "parent"}[round%5], round)
+							w.foreign([]string{"own", "batch", "iter", "sib", "parent", "near"}[round%6], round)
 
 							continue
 						}
@@ -1264,7 +1264,47 @@ var (
 func (w *world) foreign(kind string, round int) {
 	st := w.stack
 	val := []byte{0xff, 0xff, 0xff, 0xff, 0xff, 0xff, 0xff, byte(round)}
+	// keys next to the sequence keys: one byte shorter, one byte longer - other keys all the same
+	var near [][]byte
+	longer := map[int]bool{} // near[i] extends a sequence key: as a prefix it matches no sequence key ...
+	for _, l := range w.lanes {
+		for j, k := range [][]byte{l.key[:len(l.key)-1], append(append([]byte{}, l.key...), 0), append(append([]byte{}, l.key...), 'x')} {
+			taken := len(k) == 0
+			for _, l2 := range w.lanes {
+				// ... unless it is a prefix of another lane's key
+				taken = taken || string(l2.key) == string(k) || (j > 0 && strings.HasPrefix(string(l2.key), string(k)))
+			}
+			if !taken {
+				longer[len(near)] = j > 0
+				near = append(near, k)
+			}
+		}
+	}
 	switch kind {
+	case "near":
+		for _, k := range near {
+			_ = st.Set(k, val)
+		}
+		for i, k := range near {
+			switch i % 3 {
+			case 0:
+				_ = st.Delete(k)
+			case 1:
+				if b, err := st.Batched(); err == nil {
+					_ = b.Delete(k)
+					_ = b.Commit()
+				}
+			default:
+				if longer[i] {
+					_ = st.DeletePrefix(k) // longer than the sequence key it was made from: cannot match it
+				} else {
+					_ = st.Delete(k)
+				}
+			}
+		}
+		for _, k := range near {
+			_ = st.Delete(k)
+		}
 	case "own":
 		_ = st.Set(otherKey2, val)
 		_ = st.Set(otherKey3, val)
@@ -1490,7 +1530,7 @@ func (w *world) execParm(r *hx.Run, f []string) string {
 				return
 			default:
 			}
-			w.foreign([]string{"own", "batch", "iter", "sib", "parent"}[round%5], round)
+			w.foreign([]string{"own", "batch", "iter", "sib", "parent", "near"}[round%6], round)
 			runtime.Gosched()
 		}
 	}()
@@ -1865,7 +1905,7 @@ func genCase(rng *hx.Rng, n int) []string {
 				b = (a + 1) % nl
 			}
 			bop := hx.Pick(rng, []string{"next", "next", "release", "release", "next", fmt.Sprintf("new %d", hx.Pick(rng, intervals)), "crash write", "mark", "fnext set",
-				"foreign " + hx.Pick(rng, []string{"own", "batch", "sib", "parent", "iter"})})
+				"foreign " + hx.Pick(rng, []string{"own", "batch", "sib", "parent", "iter", "near"})})
 			if bop == "crash write" {
 				crashed = append(crashed, b)
 			}
@@ -1912,7 +1952,7 @@ func genCase(rng *hx.Rng, n int) []string {
 			if rng.Chance(1, 3) {
 				ops = append(ops, "sibling "+hx.Pick(rng, []string{"t", "s2", "r", "u"}))
 			} else {
-				ops = append(ops, "foreign "+hx.Pick(rng, []string{"own", "batch", "iter", "parent", "sib"}))
+				ops = append(ops, "foreign "+hx.Pick(rng, []string{"own", "batch", "iter", "parent", "sib", "near", "near"}))
 			}
 		case x < 95:
 			emit("fnext get")
@@ -2136,7 +2176,7 @@ func main() {
 		// two long keys that differ in their last byte only
 		{"cfg key " + strings.Repeat("ab", 100), "cfg key2 " + strings.Repeat("ab", 99) + "ac", "new 2", "k2 new 3", "next", "k2 next", "k2 next", "next", "next", "crash write", "k2 crash idle", "new 1", "k2 new 1", "next", "k2 next", "mark", "k2 mark"},
 		// other users of the store (other keys of the same view, parent view, sibling views: delete by prefix, clear, batches)
-		{"cfg key 73746f7265", "cfg key2 73746f726573", "new 2", "k2 new 3", "next", "k2 next", "foreign own", "foreign batch", "foreign sib", "foreign parent", "foreign iter", "next", "k2 next", "crash idle", "k2 crash idle", "new 1", "k2 new 1", "next", "k2 next", "mark", "k2 mark"},
+		{"cfg key 73746f7265", "cfg key2 73746f726573", "new 2", "k2 new 3", "next", "k2 next", "foreign own", "foreign batch", "foreign sib", "foreign parent", "foreign iter", "foreign near", "next", "k2 next", "crash idle", "k2 crash idle", "new 1", "k2 new 1", "next", "k2 next", "mark", "k2 mark"},
 		{"cfg stack root,dbgf:16,flush,realm:7a", "new 1", "next", "foreign sib", "foreign own", "foreign batch", "next", "crash write", "new 2", "next", "mark"},
 		// several sequences over one store: requests of other keys inside a store call of a request (on top of the stack /
 		// inside the debug callback / with the caller parked) and concurrently (seeded change C07-r6-2: pooled value buffer)
